@@ -519,7 +519,7 @@ func famFields(r *rng.R, id int) *famOut {
 	MIXED2  string
 	Dup     string
 	DUP     string
-}
+%[2]s}
 type %[1]sNested struct {
 	Street string
 	City   string
@@ -549,7 +549,9 @@ type %[1]sIn2 struct {
 	Name string
 	Age  int
 }
-`, p)
+`, p, map[bool]string{true: "\tCITY    string\n", false: ""}[id%4 == 2])
+	// (every 4th instance: the source itself has a CASE VARIANT `CITY` of a name that autoMap finds EXACTLY in Nested: under
+	// matchIgnoreCase the exact match wins across all field sources)
 	if id%7 == 3 {
 		// struct settings that are only FLAGS, written on a pointer variant of the pair, while the plain pair is needed
 		// elsewhere (slice elements): they would be bypassed by the generated In -> Out method, so generation must fail
@@ -583,7 +585,9 @@ type %[1]sIn2 struct {
 	b.WriteString("// goverter:converter\n")
 	// every 6th instance pins the combination ignoreMissing x matchIgnoreCase x ambiguous candidates (must be an error)
 	pinned := id%6 == 0
-	if pinned || r.Chance(50) {
+	// the instances with the case variant CITY pin: matchIgnoreCase + autoMap Nested (exact City there) + nothing else ambiguous
+	pinCity := id%4 == 2 && !pinned
+	if pinned || pinCity || r.Chance(50) {
 		b.WriteString("// goverter:matchIgnoreCase\n")
 	}
 	b.WriteString("type " + p + "C interface {\n")
@@ -593,7 +597,7 @@ type %[1]sIn2 struct {
 			lines = append(lines, l)
 		}
 	}
-	if r.Bool() {
+	if r.Bool() || pinCity {
 		lines = append(lines, "autoMap Nested")
 	} else {
 		lines = append(lines, "map Nested.Street Street", "map Nested.City City", "map Nested.Zip Zip")
@@ -607,6 +611,8 @@ type %[1]sIn2 struct {
 	// DuP has two case-insensitive candidates (Dup, DUP) and no exact one; DUP has an exact one
 	if pinned {
 		lines = append(lines, "ignoreMissing")
+	} else if pinCity {
+		lines = append(lines, "ignore DuP")
 	} else {
 		opt(60, "ignore DuP")
 		opt(30, "ignoreMissing")
